@@ -197,6 +197,8 @@ def shapes(t, rng):
     if t in ('Omaha', 'Omaha8'):
         return rng.choice([(4, 3), (4, 4), (4, 5), (4, 5), (5, 5), (6, 5), (2, 3), (2, 5), (3, 4), (4, 2), (1, 5), (4, 0)])
     if t == 'Greek':
+        if rng.random() < 0.2:     # fewer hole cards than the rule needs (both hole cards + three board cards): no hand
+            return rng.choice([(1, 4), (1, 5), (0, 5), (1, 3), (0, 4)])
         return (2, rng.choice([3, 4, 5, 5, 2, 0]))
     return rng.choice([(2, 5), (2, 3), (2, 4), (7, 0), (5, 0), (6, 0), (3, 4), (1, 5), (0, 5), (2, 2), (4, 0), (3, 3), (7, 1)])
 
@@ -238,6 +240,8 @@ def check_C05(run: Run):
         shp = [(2, 3), (2, 4)] if t not in ('Badugi', 'StandardBadugi') else [(4, 0), (3, 0), (5, 0)]
         if t in ('Omaha', 'Omaha8'):
             shp = [(3, 3), (2, 4), (4, 3)]
+        if t == 'Greek':
+            shp = [(2, 3), (2, 4), (1, 4)]
         for nh, nb in shp:
             for hole in itertools.combinations(sub, nh):
                 rest = [c for c in sub if c not in hole]
